@@ -233,7 +233,8 @@ open Lyon.ArcChk
 
 def rdBool (v : Array String) (i : Nat) : Bool := v.getD i "0" == "1"
 
-def rdArcSegs (v : Array String) : Nat → Nat → Option (List (ArcSeg Rat))
+/-- segments with the advice points and the advice tangents themselves -/
+def rdArcSegs (v : Array String) : Nat → Nat → Option (List (ArcSeg Rat × Rat × Bool × Rat × Bool))
   | 0, _ => some []
   | n+1, i => do
     let a ← rdPt v i
@@ -243,7 +244,16 @@ def rdArcSegs (v : Array String) : Nat → Nat → Option (List (ArcSeg Rat))
     let ua ← rdRat v (i+6)
     let ub ← rdRat v (i+8)
     let r ← rdArcSegs v n (i+10)
-    pure (⟨⟨a, b, t0, t1⟩, unitPt ua (rdBool v (i+7)), unitPt ub (rdBool v (i+9))⟩ :: r)
+    pure ((⟨⟨a, b, t0, t1⟩, unitPt ua (rdBool v (i+7)), unitPt ub (rdBool v (i+9))⟩,
+      ua, rdBool v (i+7), ub, rdBool v (i+9)) :: r)
+
+/-- first candidate chord (index) whose mid-advice point is a certified violation -/
+def arcViolSearch (f : Frame Rat) (r2 : Rat) (l : List (ArcSeg Rat)) :
+    List (Nat × ArcSeg Rat × Rat × Bool × Rat × Bool) → Option Nat
+  | [] => none
+  | (i, x, ua, fa, ub, fbb) :: r =>
+    if fa == fbb && arcViol f r2 x (unitPt ((ua + ub) / 2) fa) l then some i
+    else arcViolSearch f r2 l r
 
 def handle (v : Array String) : String :=
   let claim := v.getD 0 ""
@@ -257,11 +267,12 @@ def handle (v : Array String) : String :=
     let w ← rdRat v 8
     let p0 ← rdPt v 10
     let pe ← rdPt v 12
-    let l ← rdArcSegs v (rdNat v 14) 15
+    let la ← rdArcSegs v (rdNat v 14) 15
     let cs := unitPt w (rdBool v 9)
-    pure (tol, eps, (⟨c, rx, ry, cs.x, cs.y⟩ : Frame Rat), R, p0, pe, l)) with
+    pure (tol, eps, (⟨c, rx, ry, cs.x, cs.y⟩ : Frame Rat), R, p0, pe, la)) with
   | none => "skip non-finite"
-  | some (tol, eps, f, R, p0, pe, l) =>
+  | some (tol, eps, f, R, p0, pe, la) =>
+    let l := la.map (·.1)
     let struct := decide (0 < R) && decide (f.rx * f.rx ≤ R * R) && decide (f.ry * f.ry ≤ R * R)
       && (f.c * f.c + f.s * f.s == 1) && chainOK p0 0 pe 1 (l.map (·.sg)) && adviceChain l
       && l.all (fun x => (x.pa.sqLen == 1) && (x.pb.sqLen == 1))
@@ -270,15 +281,26 @@ def handle (v : Array String) : String :=
     let ls := l.map (fun x => (x.pb - x.pa).sqLen)
     let kIdx := firstBucket (fun k => ls.all (fun L2 =>
       decide (L2 ≤ 4 * tau R (k * tol + eps) * (2 - tau R (k * tol + eps)))))
-    let verdict := "s" ++ fb struct ++ ":v" ++ fb vtx ++ ":k" ++ toString kIdx
+    -- violation certificate (theorem chk_arc_violation_sound_rat): the first 4 chords failing the test at
+    -- k = 1, the unit point with the mean half-angle tangent, radius tol + 2·eps
+    let bound1 := 4 * tau R (tol + eps) * (2 - tau R (tol + eps))
+    let cands := (((List.range la.length).zip la).filter (fun x => decide (bound1 < (x.2.1.pb - x.2.1.pa).sqLen))).take 4
+    let viol := if kIdx == 0 || !struct then none else
+      arcViolSearch f ((tol + 2 * eps) * (tol + 2 * eps)) l cands
+    let verdict := "s" ++ fb struct ++ ":v" ++ fb vtx ++ ":k" ++ toString kIdx ++ ":"
+      ++ (match viol with | none => "x-" | some i => "x" ++ toString i)
     -- the proved function itself, with the factor found
     let accepted := kIdx < kBuckets.length && chkArc f R (kBuckets.getD kIdx 1 * tol + eps) eps p0 pe l
     if verdict != claim then "MISMATCH claimed=" ++ claim ++ " verified=" ++ verdict
     else if !struct then "fail arc.flatten/certified-structure generic " ++ verdict
-    else if !vtx then "skip chk_arc:vertex-eps " ++ verdict
-    else if !accepted then "skip chk_arc:k>4 " ++ verdict
-    else if kIdx == 0 then "ok " ++ verdict
-    else "skip chk_arc:k<=" ++ kNames.getD kIdx "?" ++ " " ++ verdict
+    else match viol with
+    | some i => "fail arc.flatten/certified-tolerance generic exact checker: the ellipse point with the mean half-angle tangent of chord "
+        ++ toString i ++ " is farther than tol+2eps from every emitted segment " ++ verdict
+    | none =>
+      if !vtx then "skip chk_arc:vertex-eps " ++ verdict
+      else if !accepted then "skip chk_arc:k>4 " ++ verdict
+      else if kIdx == 0 then "ok " ++ verdict
+      else "skip chk_arc:k<=" ++ kNames.getD kIdx "?" ++ " " ++ verdict
 
 end Arc
 
